@@ -341,9 +341,12 @@ def rule_slot_agree(ctx: RuleContext, p: Program, rid: str) -> None:
         sets = [x for x in walk_no_nested(s.node) if isinstance(x, ast.Call) and norm(x.func) == 'self._inner_property.__set__']
         if len(sets) != 1 or norm(sets[0].args[0]) != inst:
             problems.append('create/clear path does not store through self._inner_property.__set__(instance, ...)')
-        cre = [a for a in walk_no_nested(s.node) if isinstance(a, ast.Assign) and isinstance(a.value, ast.IfExp)]
-        ok = len(cre) == 1 and norm(cre[0].value.test) == f'{val} is not None' and norm(cre[0].value.orelse) == 'None' \
-            and norm(cre[0].value.body).startswith(f'self._inner_type.from_value({val}') and sets and norm(sets[0].args[1]) == norm(cre[0].targets[0])
+        cre_e = [a.value for a in walk_no_nested(s.node) if isinstance(a, ast.Assign) and isinstance(a.value, ast.IfExp)
+                 and sets and norm(sets[0].args[1]) == norm(a.targets[0])]
+        if sets and isinstance(sets[0].args[1], ast.IfExp):
+            cre_e = [sets[0].args[1]]            # canonical form: written inline
+        ok = len(cre_e) == 1 and norm(cre_e[0].test) == f'{val} is not None' and norm(cre_e[0].orelse) == 'None' \
+            and norm(cre_e[0].body).startswith(f'self._inner_type.from_value({val}')
         if not ok:
             problems.append('new child is not inner_type.from_value(value) if value is not None else None')
         rg = [norm(r.value) for r in walk_no_nested(g.node) if isinstance(r, ast.Return)]
